@@ -219,6 +219,9 @@ func (o *Operator) HandleDeploy(ctx context.Context, req *workerpb.DeployOperato
 	o.sourceRunners = newUpstreams(req.SourceRunnerIds)
 	o.sink = sink
 
+	// A checkpoint that was being aligned belongs to the previous deployment.
+	o.checkpoint = nil
+
 	if err := o.status.DidLoad(); err != nil {
 		return fmt.Errorf("invalid status transition: %w", err)
 	}
